@@ -1,6 +1,7 @@
 #!/bin/bash
 # tools/sweep.sh <tier> <seed>... : run every check at the given tier for each seed; evidence goes to a scratch dir
 # (never to /verif/evidence). Prints one line per (check, seed) and the verdict lines of anything that is not rc=0.
+HERE="$(cd "$(dirname "${BASH_SOURCE[0]}")/.." && pwd)"
 TIER="$1"; shift
 OUT=$(mktemp -d /tmp/sweep-XXXXXX)
 fail=0
@@ -8,7 +9,7 @@ for seed in "$@"; do
   for i in $(seq -w 1 20); do
     c="C$i"
     t0=$(date +%s)
-    out=$(cd /verif && VERIF_SEED=$seed VERIF_OUT="$OUT" ./check "$c" "$TIER" 2>&1); rc=$?
+    out=$(cd "$HERE" && VERIF_SEED=$seed VERIF_OUT="$OUT" ./check "$c" "$TIER" 2>&1); rc=$?
     t1=$(date +%s)
     echo "$c seed=$seed rc=$rc $((t1-t0))s $(echo "$out" | tail -1 | cut -c1-160)"
     if [ $rc -ne 0 ]; then fail=1; echo "$out" | grep -E "VIOLATION|INCONCLUSIVE|key=" | head -8 | cut -c1-400; fi
